@@ -566,7 +566,13 @@ func runC10(rc *RunCtx) {
 			}
 			ww.StepReceive()
 		default:
-			switch T.Pick("c10.kind", 6, 3, 2, 1, 1, 2) {
+			switch T.Pick("c10.kind", 6, 3, 2, 1, 1, 2, 1, 1) {
+			case 6:
+				// several mint requests (different outputs) for one paid quote, then a late one:
+				// whatever is answered with signatures, they must be signatures on the outputs asked
+				m.StepMintRace()
+			case 7:
+				m.StepFund()
 			case 5:
 				ww.StepTamperedToken()
 			case 0:
